@@ -12,6 +12,7 @@ import (
 
 	commonmodels "github.com/lindb/common/models"
 
+	"github.com/lindb/lindb/constants"
 	"github.com/lindb/lindb/flow"
 	"github.com/lindb/lindb/query"
 	stagepkg "github.com/lindb/lindb/query/stage"
@@ -21,13 +22,14 @@ import (
 )
 
 type tree struct {
-	O     int     `json:"o"` // 0 ok, 1 err, 2 panic while executing the plan, 3 panic in NextStages() after the plan ran
+	O int `json:"o"` // 0 ok, 1 err, 2 panic while executing the plan, 3 panic in NextStages() after the plan ran,
+	// 4 not-found error of a node that ignores not-found (tolerated), 5 not-found error of a plain node, 6 other error of an ignoring node
 	Async bool    `json:"a"`
 	Next  []*tree `json:"n,omitempty"`
 }
 
 func (t *tree) coq() string {
-	o := []string{"Ok", "Err", "Panic", "PanicNext"}[t.O]
+	o := []string{"Ok", "Err", "Panic", "PanicNext", "NotFoundIgnored", "NotFoundPlain", "ErrIgnoring"}[t.O]
 	var xs []string
 	for _, c := range t.Next {
 		xs = append(xs, c.coq())
@@ -51,6 +53,7 @@ type ctrl struct {
 	completed int32 // stages whose Complete() ran
 	failed    int32
 	panicked  int32
+	tails     int32 // plan nodes after the stage's main node that ran
 	cbs       []bool
 	unfinAtCb int
 	wake      chan struct{}
@@ -81,12 +84,43 @@ func (n *node) ExecuteWithStats() (*commonmodels.OperatorStats, error) {
 		atomic.AddInt32(&n.c.failed, 1)
 		atomic.AddInt32(&n.c.panicked, 1)
 		panic("stage panicked")
+	case 4: // tolerated: the node ignores not-found
+		return nil, fmt.Errorf("%w, family of this shard", constants.ErrNotFound)
+	case 5:
+		atomic.AddInt32(&n.c.failed, 1)
+		return nil, fmt.Errorf("%w, metric", constants.ErrNotFound)
+	case 6:
+		atomic.AddInt32(&n.c.failed, 1)
+		return nil, errors.New("read data family: input/output error")
 	}
 	return nil, nil
 }
 func (n *node) Children() []stagepkg.PlanNode { return nil }
 func (n *node) AddChild(_ stagepkg.PlanNode)  {}
-func (n *node) IgnoreNotFound() bool          { return false }
+func (n *node) IgnoreNotFound() bool          { return n.outcome == 4 || n.outcome == 6 }
+
+// the plan of every stage: an empty root whose children are the stage's main node (gated, carries the outcome) and a
+// tail node that only records that it ran - it must run iff the main node succeeded or its not-found was tolerated
+type rootNode struct{ kids []stagepkg.PlanNode }
+
+func (n *rootNode) Execute() error { return nil }
+func (n *rootNode) ExecuteWithStats() (*commonmodels.OperatorStats, error) {
+	return nil, nil
+}
+func (n *rootNode) Children() []stagepkg.PlanNode { return n.kids }
+func (n *rootNode) AddChild(_ stagepkg.PlanNode)  {}
+func (n *rootNode) IgnoreNotFound() bool          { return false }
+
+type tailNode struct{ c *ctrl }
+
+func (n *tailNode) Execute() error { _, err := n.ExecuteWithStats(); return err }
+func (n *tailNode) ExecuteWithStats() (*commonmodels.OperatorStats, error) {
+	atomic.AddInt32(&n.c.tails, 1)
+	return nil, nil
+}
+func (n *tailNode) Children() []stagepkg.PlanNode { return nil }
+func (n *tailNode) AddChild(_ stagepkg.PlanNode)  {}
+func (n *tailNode) IgnoreNotFound() bool          { return false }
 
 // panicNext is a stage whose plan runs fine and whose NextStages() panics (shard scan / grouping / metadata
 // lookup stages do real work there); everything else is the embedded stage.
@@ -103,7 +137,7 @@ func (s *panicNext) NextStages() []stagepkg.Stage {
 
 func build(ctx context.Context, c *ctrl, pool interface{}, t *tree, id string, mk func(async bool, id string, n stagepkg.PlanNode) *stagepkg.VerifStage) stagepkg.Stage {
 	n := &node{c: c, outcome: t.O, release: make(chan struct{})}
-	s := mk(t.Async, id, n)
+	s := mk(t.Async, id, &rootNode{kids: []stagepkg.PlanNode{n, &tailNode{c: c}}})
 	s.OnComplete = func() { atomic.AddInt32(&c.completed, 1) }
 	if t.O == 3 {
 		return &panicNext{VerifStage: s, c: c}
@@ -121,6 +155,7 @@ type result struct {
 	UnfinAtCb int    `json:"unfinished_at_cb"`
 	Panic     bool   `json:"panic"`
 	Hang      bool   `json:"hang"`
+	Tails     int    `json:"tails"`
 }
 
 func runTree(t *tree, r *vh.Rand) result {
@@ -200,14 +235,18 @@ func runTree(t *tree, r *vh.Rand) result {
 	c.mu.Lock()
 	defer c.mu.Unlock()
 	return result{Cbs: append([]bool{}, c.cbs...), Completed: int(atomic.LoadInt32(&c.completed)),
-		Failed: atomic.LoadInt32(&c.failed) > 0, UnfinAtCb: c.unfinAtCb, Panic: atomic.LoadInt32(&c.panicked) > 0, Hang: !gotCb}
+		Failed: atomic.LoadInt32(&c.failed) > 0, UnfinAtCb: c.unfinAtCb, Panic: atomic.LoadInt32(&c.panicked) > 0, Hang: !gotCb, Tails: int(atomic.LoadInt32(&c.tails))}
 }
 
 // enumerate all trees with exactly n stages over outcomes x async (small n only)
+// outcomes of the exhaustive trees (the three kinds around "not found" come in through the random trees and the
+// two-stage trees below)
+var exhOutcomes = []int{0, 1, 2, 3}
+
 func enumTrees(n int) []*tree {
 	var res []*tree
 	for _, forest := range enumForests(n - 1) {
-		for o := 0; o < 4; o++ {
+		for _, o := range exhOutcomes {
 			for a := 0; a < 2; a++ {
 				res = append(res, &tree{O: o, Async: a == 1, Next: forest})
 			}
@@ -235,12 +274,18 @@ func genTree(r *vh.Rand, depth, budget int) *tree {
 	switch x := r.Intn(100); {
 	case x < 70:
 		t.O = 0
-	case x < 84:
+	case x < 80:
 		t.O = 1
-	case x < 92:
+	case x < 85:
 		t.O = 2
-	default:
+	case x < 89:
 		t.O = 3
+	case x < 93:
+		t.O = 4
+	case x < 96:
+		t.O = 5
+	default:
+		t.O = 6
 	}
 	if depth > 0 {
 		k := r.Intn(4)
@@ -263,10 +308,10 @@ func nontrivial(t *tree) bool {
 		if t.Async {
 			async = true
 		}
-		if t.O != 0 {
+		if t.O != 0 && t.O != 4 {
 			fail = true
 		}
-		if t.O == 0 {
+		if t.O == 0 || t.O == 4 {
 			for _, c := range t.Next {
 				walk(c)
 			}
@@ -287,6 +332,12 @@ func main() {
 		trees = append(trees, enumTrees(n)...)
 	}
 	out.CountN("exhaustive_trees_le_3_stages", len(trees))
+	// all trees of up to 2 stages over all seven outcomes
+	exhOutcomes = []int{0, 1, 2, 3, 4, 5, 6}
+	for n := 1; n <= 2; n++ {
+		trees = append(trees, enumTrees(n)...)
+	}
+	exhOutcomes = []int{0, 1, 2, 3}
 	for i := 0; i < cfg.N; i++ {
 		trees = append(trees, genTree(r, 3, 12))
 	}
@@ -309,8 +360,8 @@ func main() {
 			for _, b := range res.Cbs {
 				cbs = append(cbs, vh.Bool(b))
 			}
-			out.Check(idx, fmt.Sprintf("check %s {| cbs := %s; completed := %d; failed_seen := %s; unfinished_at_cb := %d; any_panic := %s; hang := %s |}",
-				t.coq(), vh.List(cbs), res.Completed, vh.Bool(res.Failed), res.UnfinAtCb, vh.Bool(res.Panic), vh.Bool(res.Hang)))
+			out.Check(idx, fmt.Sprintf("check %s {| cbs := %s; completed := %d; failed_seen := %s; unfinished_at_cb := %d; any_panic := %s; hang := %s; tails := %d |}",
+				t.coq(), vh.List(cbs), res.Completed, vh.Bool(res.Failed), res.UnfinAtCb, vh.Bool(res.Panic), vh.Bool(res.Hang), res.Tails))
 		}
 	}
 	out.Finish()
